@@ -102,20 +102,24 @@ class LazyCall:
         ):
             for i, j in zip(
                 self.cached_batch[self.batch_size],
-                split_generator(self.extra, self.batch_size),
+                self._split_extra(),
             ):
                 yield {**i, **j}
         elif isinstance(self.x, LazyCall):
-            for i, j in zip(
-                self.x, split_generator(self.extra, self.batch_size)
-            ):
+            for i, j in zip(self.x, self._split_extra()):
                 yield {**self.f(i, *self.args, **self.kwargs), **j}
         else:
             for i, j in zip(
                 split_generator(self.x, self.batch_size),
-                split_generator(self.extra, self.batch_size),
+                self._split_extra(),
             ):
                 yield {**self.f(i, *self.args, **self.kwargs), **j}
+
+    def _split_extra(self):
+        """batches of the columns stored beside the sample (as many empty ones as needed when there is none)"""
+        if len(self.extra) == 0:
+            return itertools.repeat({})
+        return split_generator(self.extra, self.batch_size)
 
     def as_dataset(self, batch=65000):
         self.batch_size = batch
